@@ -74,6 +74,9 @@ RULE += (
     'Later widenings: failing saves; reads inside open walks; a stale database at the output '
     'path; one reader object following a build; a damaged blob handed to the deserialiser bef'
     'ore the valid one; consumer edits of a read client followed by re-reads.')
+RULE += (
+    ' '
+    'Also: add_many fed by a producer that refills one scratch dict.')
 ASSUMPTIONS = [
     'equal dtype is judged up to byte order (dtype.name): the msgpack wire '
     'format stores the dtype name only, so results are native-endian by design',
